@@ -232,8 +232,33 @@ CORPUS = [
 ]
 
 
+def directed_search(ck):
+    """the translation tie is broken: look for an input on which the code as translated and the model
+    differ (exhaustively over short lists from a small value set), then put exactly those inputs to the
+    implementation and the oracle"""
+    import itertools
+    cands = []
+    if ck.gen_broken.startswith('proof-broken'):
+        vals = [0.0, 1.0, 2.0, 3.0, 0.5, 1000000.0, 7.25]
+        lists = [list(t) for n in range(1, 5) for t in itertools.product(vals, repeat=n)]
+        try:
+            answers = ck.model([{'op': 'c15.gen_diff', 'xs': [lib.frac(x) for x in xs]} for xs in lists],
+                               driver='drivers/C15gen.lean')
+            cands = [xs for xs, a in zip(lists, answers) if not a.get('same', True)]
+            ck.notes.append('directed search: generated vs model differ on %d of %d short lists' % (len(cands), len(lists)))
+        except lib.InfraError as e:
+            ck.notes.append('directed search: generated definitions do not run (%s)' % str(e)[:200])
+    ck.count('directed-search-candidates', len(cands))
+    if cands:
+        cands.sort(key=len)
+        check_lists(ck, [('directed', xs, [xs]) for xs in cands[:200]])
+    return bool(cands)
+
+
 def run(ck):
     quick = ck.tier == 'quick'
+    if ck.gen_broken:
+        directed_search(ck)
     ck.rule = ('sample lists (single, pairs, repeats, large offsets, magnitudes 1e-3..1e9, ints, long) fed in random '
                'batches to the real StatisticProperties and as exact rationals to RB.Stats; agreement within a '
                'worst-case rounding bound; non-trivial = list of length >= 2 (distinct by content) or a warm-up '
@@ -242,6 +267,8 @@ def run(ck):
                       'rational model is required within 4*(n+2)*eps*max|x| (mean) and the corresponding bound for m2']
     n_lists = 400 if quick else 5000
     max_len = 500 if quick else 5000
+    if ck.gen_broken and quick:   # escalate the random budget
+        n_lists, max_len = 2000, 1000
     cases = [(k, xs, [xs]) for (k, xs) in CORPUS]
     for _ in range(n_lists):
         kind, xs = gen_list(ck.rng, max_len)
